@@ -115,8 +115,8 @@ func c14Repeat(k int) {
 	}
 	c14Body(string(bs))
 }
-func VerifHarness_C14_Repeat334() { c14Repeat(334) }
-func VerifHarness_C14_Repeat400() { c14Repeat(400) }
+func VerifHarness_C14_Repeat334()  { c14Repeat(334) }
+func VerifHarness_C14_Repeat400()  { c14Repeat(400) }
 func VerifHarness_C14_Repeat1000() { c14Repeat(1000) }
 
 // F2: boundary lengths 999 / 1000 / 1001: two symbolic bytes + concrete padding.
